@@ -19,7 +19,12 @@ RULE = ("http_surface: Hypothesis draws a rule from app.url_map (discovered at r
         "optional Range header and clock. injection: (verr|aerr|terr specs, failures, request sequences) against a "
         "model of the documented behaviour. Non-trivial: the request reached a dashlive handler (not a routing "
         "404/405) with >= 1 non-default option; injection: >= 2 hits on an addressed segment. distinct = canonical "
-        "JSON of the case.")
+        "JSON of the case. mp4_input: a valid file (fixture text/audio file, synthetic video/audio/text/encrypted/short) "
+        "with 1-3 mutations placed by the independent box walker: truncation, bit flip, a box size field set to "
+        "0/1/7/8/size-1/size+1/size+8/half/double/2^32-16/past its parent, a box type replaced, a 32-bit payload word "
+        "set to a boundary value, a box dropped or duplicated; fed to Mp4Atom.load (r/rw x lazy/eager, deterministic "
+        "read budget of 4 reads per byte + 2000) or uploaded, indexed and requested through every route that reads "
+        "the file. Non-trivial: the bytes differ from the valid file.")
 ASSUMPTIONS = [
     "vt/shims stand in for flask_login, sqlalchemy_jsonfield, dotenv, netifaces; harness-controlled clock",
     "TESTING=False, PROPAGATE_EXCEPTIONS=False: an unhandled exception becomes a 500 and is recorded via "
@@ -336,4 +341,28 @@ class Injection(Engine):
         return check_injection(case)
 
 
-ENGINES = [HttpSurface(), Injection()]
+class Mp4Input(Engine):
+    name = "mp4_input"
+
+    def budget(self, tier):
+        return 1600 if tier == "quick" else 300_000
+
+    def strategy(self, tier):
+        from .. import app
+        from . import c16_mp4
+        app.boot()
+        return c16_mp4.strategy()
+
+    def setup(self, tier):
+        # a corrupt count or size field must not be able to take the machine down: with an address-space limit an
+        # allocation the parser should never have attempted surfaces as MemoryError (reported as uncontrolled)
+        import resource
+        lim = 3 << 30
+        resource.setrlimit(resource.RLIMIT_AS, (lim, lim))
+
+    def check(self, case):
+        from . import c16_mp4
+        return c16_mp4.check_mp4(case)
+
+
+ENGINES = [HttpSurface(), Injection(), Mp4Input()]
